@@ -216,16 +216,32 @@ def class_specs(lib):
     return {c["name"]: {a["name"]: a for a in cfggen.all_args(lib, c["name"])} for c in lib["classes"]}
 
 
+def class_table(mod, lib):
+    """the class table of the library as the model reads it (Model/ClassTable.lean): bases in `__bases__` order, Python's MRO
+    (taken from the real classes: the linearisation is Python's, not the code under test's), the declarations of each class body"""
+    names = [c["name"] for c in lib["classes"]]
+    idx = {n: i for i, n in enumerate(names)}
+    table = []
+    for c in lib["classes"]:
+        k = getattr(mod, c["name"])
+        table.append({"bases": [idx[b.__name__] for b in k.__bases__ if b.__name__ in idx and getattr(b, "__module__", None) == lib["pkg"]],
+                      "mro": [idx[b.__name__] for b in k.__mro__[1:] if b.__name__ in idx and getattr(b, "__module__", None) == lib["pkg"]],
+                      "own": [decl_json(a, None if "default" not in a else {"i": "0"}) for a in c["args"]]})
+    return table, idx
+
+
 def library_flags(mod, lib):
-    """driver line + real outcome comparing, for every class of the library, the flags the model derives from the declarations
-    with those of the real `Argument` objects"""
+    """driver line + real outcome comparing, for every class of the library and every parameter name it has, the flags the
+    model derives — resolution of the declaration in force through the bases included — with those of the real `Argument`"""
+    from ..gen import cfggen
+    table, idx = class_table(mod, lib)
     classes, impl = [], []
-    for cname, specs in class_specs(lib).items():
-        real = getattr(mod, cname).__getxpmtype__().arguments
-        names = [n for n in specs if n in real] + [n for n in specs if n not in real]
-        classes.append({"cls": cname, "decls": [decl_json(specs[n], None if "default" not in specs[n] else {"i": "0"}) for n in names]})
+    for c in lib["classes"]:
+        real = getattr(mod, c["name"]).__getxpmtype__().arguments
+        names = list(dict.fromkeys(list(cfggen.arg_names(lib, c["name"])) + list(real.keys())))
+        classes.append({"cls": c["name"], "idx": idx[c["name"]], "names": [hx(n) for n in names], "bases": len(table[idx[c["name"]]]["bases"])})
         impl.append([real_flags(real[n]) if n in real else "missing" for n in names])
-    return {"line": {"op": "flags", "classes": classes}, "impl": {"flags": impl}}
+    return {"line": {"op": "flags", "table": table, "classes": classes}, "impl": {"flags": impl}}
 
 
 def model_graph(objs, closed=True, lib=None, stats=None):
